@@ -23,7 +23,7 @@ import re
 import shlex
 import os
 
-from rsrc import mask, find_item, find_loops, AnchorError
+from rsrc import mask, find_item, find_loops, find_closures, AnchorError
 
 
 class TemplateError(Exception):
@@ -135,6 +135,7 @@ def build(template_path, repo_root):
         d = _parse_kv(st[len("//@extract"):])
         i += 1
         sections = {"spec": []}
+        closure_sigs = {}
         cur = "spec"
         while i < len(tmpl) and tmpl[i].strip().startswith("//@") and not tmpl[i].strip().startswith("//@extract"):
             s = tmpl[i].strip()
@@ -143,6 +144,13 @@ def build(template_path, repo_root):
             elif s.startswith("//@loop"):
                 cur = "loop " + s[len("//@loop"):].strip()
                 sections[cur] = []
+            elif s.startswith("//@closure"):
+                # //@closure <n> <typed params> -> <binder>: <type>
+                rest = s[len("//@closure"):].strip()
+                n, sigtxt = rest.split(None, 1)
+                cur = "closure " + n
+                sections[cur] = []
+                closure_sigs[int(n)] = sigtxt
             elif s.startswith("//@end"):
                 i += 1
                 break
@@ -187,9 +195,26 @@ def build(template_path, repo_root):
                     raise AnchorError(f"fn {d['name']}: loop #{n} not found (has {len(loops)})")
                 inserts.append((loops[n][1] - item.body_open, clauses))
                 edits.append(f"loop-overlay:{n}")
-            inserts.sort(reverse=True)
-            for pos, clauses in inserts:
-                body = body[:pos] + "\n" + "\n".join(indent + "        " + c for c in clauses) + "\n" + indent + "    " + body[pos:]
+            edits_at = [(pos, pos, "\n" + "\n".join(indent + "        " + c for c in clauses) + "\n" + indent + "    ")
+                        for pos, clauses in inserts]
+            if closure_sigs:
+                closures = find_closures(m, item.body_open, item.end)
+                for n, sigtxt in closure_sigs.items():
+                    if n >= len(closures):
+                        raise AnchorError(f"fn {d['name']}: closure #{n} not found (has {len(closures)})")
+                    (c_start, c_bar_end, c_body_end) = closures[n]
+                    params, ret = sigtxt.split("->")
+                    binder, rty = ret.split(":", 1)
+                    clauses = sections["closure %d" % n]
+                    head = "|" + params.strip() + "| -> (" + binder.strip() + ": " + rty.strip() + ")\n" + \
+                        "\n".join(indent + "            " + c for c in clauses) + "\n" + indent + "        { "
+                    # replace `|x|` by typed header, wrap body expression in braces
+                    edits_at.append((c_start - item.body_open, c_bar_end - item.body_open, head))
+                    edits_at.append((c_body_end - item.body_open, c_body_end - item.body_open, " }"))
+                    edits.append(f"closure-overlay:{n} (typed params, return binder, clauses; body expression verbatim, wrapped in braces)")
+            edits_at.sort(key=lambda t: (t[0], t[1]), reverse=True)
+            for a, b, text in edits_at:
+                body = body[:a] + text + body[b:]
             body_gen_start = len(out_lines) + 1
             out_lines.extend(body.splitlines())
             meta_fns.append({
